@@ -30,7 +30,7 @@ ASSUMPTIONS = ['exactly one thread runs at a time under the baton scheduler; swi
                'an engine is reused between executions; every reported violation is first replayed twice on a fresh engine']
 BOUNDS = {
     'quick': 'E2: 14 texts x 3 engine kinds to fixpoint; E1: all pairs of 8 texts, all interleavings when <= 15000 else preemption bound 3; '
-             'all 3-multisets of 4 texts with preemption bound 2; line-granularity bound 1 for 3 ordered pairs',
+             'all 3-multisets of 4 texts with preemption bound 2; line-granularity bound 1 for 3 ordered pairs on a warm engine and 1 pair on a fresh engine per schedule',
     'thorough': 'E2: 40 texts x 3 engine kinds; E1: all pairs of 16 texts, all interleavings when <= 400000 else bound 4; 3 threads exhaustive '
                 'where <= 800000 schedules else bound 3; two-text thread bodies; line-granularity bound 1 for all ordered pairs of 12 texts; yaql.eval path',
 }
@@ -396,6 +396,44 @@ def job_fine(kind, pairs, stride):
     return res
 
 
+def job_fine_cold(kind, ta, tb, k_lo, k_hi):
+    """Line-granularity single-preemption schedules on a FRESH engine per execution: thread A is preempted at its
+    k-th line event while it performs the very first parse of the engine (lazily built tables, caches filled on
+    first use), thread B parses to completion, A resumes."""
+    res = Result()
+    ba, bb = baseline(kind, ta), baseline(kind, tb)
+    eng = [None]
+
+    def body_a():
+        return parse_outcome(eng[0], ta)
+
+    def body_b():
+        return parse_outcome(eng[0], tb)
+    eng[0] = make_engine(kind)
+    n = sched.count_line_events(body_a, _filter)
+    res.case(('fine-cold', kind, ta, tb, k_lo))
+    for k in range(max(1, k_lo), min(n, k_hi - 1) + 1):
+        CURRENT_CASE[0] = {'kind': 'fine-cold', 'engine': kind, 'a': ta, 'b': tb, 'k': k}
+        eng[0] = make_engine(kind)
+        f = sched.FineExec(body_a, body_b, k, _filter).go()
+        res.evaluations += 1
+        res.transitions += 2
+        res.states += 1
+        res.nontrivial += 1
+        if f.res[0] != ('ok', ba) or f.res[1] != ('ok', bb):
+            eng[0] = make_engine(kind)
+            f2 = sched.FineExec(body_a, body_b, k, _filter).go()
+            if f2.res[0] != ('ok', ba) or f2.res[1] != ('ok', bb):
+                res.fail('cross-thread parse interference on a fresh engine (line granularity) engine=%s' % kind,
+                         {'kind': 'fine-cold', 'engine': kind, 'a': ta, 'b': tb, 'k': k},
+                         'fresh engine, A=%r preempted at line event %d (%r), B=%r ran to completion: A->%r B->%r; alone A->%r B->%r'
+                         % (ta, k, f2.where, tb, f2.res[0], f2.res[1], ba, bb), size=1000 + k)
+            res.outcomes['fine-cold violating'] += 1
+        else:
+            res.outcomes['fine-cold clean'] += 1
+    return res
+
+
 def job_eval_path(texts):
     """The module-level yaql.eval path: shared cached engine and expression cache."""
     res = Result()
@@ -487,6 +525,15 @@ def jobs(tier, seed):
         part = fine_pairs[i::nf]
         if part:
             out.append(('fine-%02d' % i, 'job_fine', ('default', part, 1)))
+    cold = [('false and not null or x in y', 'true or null')] if quick else \
+        [('false and not null or x in y', 'true or null'), ('true or null', 'false and not null or x in y'),
+         ('1 + 2', 'a.b'), ('f(x)', "'s'"), ('a b', '1 mod 2'), ('[1]', '{a => b}')]
+    for ci, (ta, tb) in enumerate(cold):
+        e0 = make_engine('default')
+        n = sched.count_line_events(lambda: parse_outcome(e0, ta), _filter)
+        step = 60
+        for lo in range(1, n + 1, step):
+            out.append(('fine-cold-%d-%05d' % (ci, lo), 'job_fine_cold', ('default', ta, tb, lo, lo + step)))
     out.append(('evalpath', 'job_eval_path', (['$.a.b', '$.x + 1', '1 +'] if quick else ['$.a.b', '$.x + 1', '1 +', '[$.x]', 'a b'],)))
     return out
 
@@ -503,6 +550,9 @@ def replay(case):
         r = replay_schedule(case['engine'], group, case['choices'])
         exp = [('ok', tuple(baseline(case['engine'], t) for t in p)) for p in group]
         return {'observed': repr(r), 'expected': repr(exp), 'ok': r == exp}
+    if k == 'fine-cold':
+        r = job_fine_cold(case['engine'], case['a'], case['b'], case['k'], case['k'] + 1)
+        return {'observed': [f.detail for f in r.failures.values()], 'expected': 'both parses as on a fresh engine', 'ok': not r.failures}
     if k == 'fine':
         eng = make_engine(case['engine'])
         f = sched.FineExec(lambda: parse_outcome(eng, case['a']), lambda: parse_outcome(eng, case['b']),
